@@ -18,7 +18,7 @@ func init() {
 		ID:    "C11",
 		Title: "Every sentence of the CDCN grammar is accepted with its intended meaning",
 		Rule: "A derivation generator that encodes the rules of Syntax.cdsn (hash-checked at run time) emits sentences together with their denotation computed independently (strconv on every literal with Go semantics; Set = sorted distinct, Catalog/Map = first position / last value); the parsed collection's canonical tree must equal the denotation. " +
-			"Exhaustive: every document with 0..2 items drawn from 8 literal forms + 21 nested collections, for the 5 sequence kinds and (with 4 key forms) the 2 associative kinds, inline and multi-line. Random derivations to depth 3 and up to 40 items (token streams shorter and longer than the 16-token queue, optional spaces, any indentation, trailing EOLs), each parsed 4 (quick) / 32 (thorough) times with the queue hooks injecting yields/sleeps/spins between scanner and parser and GOMAXPROCS cycling through 1..16: all results identical. " +
+			"Exhaustive: every document with 0..2 items drawn from 8 literal forms + 21 nested collections, for the 5 sequence kinds and (with 4 key forms) the 2 associative kinds, inline and multi-line. Random derivations to depth 3 and up to 40 items (token streams shorter and longer than the 16-token queue, optional spaces, any indentation, trailing EOLs), each parsed 4 (quick) / 12 (thorough) times with the queue hooks injecting yields/sleeps/spins between scanner and parser and GOMAXPROCS cycling through 1..16: all results identical. " +
 			"Boundary literals that cannot be represented (out-of-range integers/hex/floats, ill-formed escapes) in every kind and position must be rejected with a located diagnostic. distinct_nontrivial = distinct sentences.",
 		Assumptions: []string{
 			"unescaped ' and \\ inside rune and string literals and doubly signed imaginary parts are not generated (the published grammar is ambiguous there)",
@@ -34,7 +34,7 @@ func init() {
 					}
 					cdcnmon.RunC11Exhaustive(c, idx)
 				}},
-			{Name: "derivations/random", Count: core.FixedCount(12000, 400000), BlockIsViolation: true, CPULimit: 60,
+			{Name: "derivations/random", Count: core.FixedCount(12000, 100000), BlockIsViolation: true, CPULimit: 60,
 				Run: func(c *core.Ctx, idx int) { cdcnmon.RunC11Random(c, idx) }},
 			{Name: "derivations/race-detector-sample", Count: core.FixedCount(3000, 60000), Race: true, MaxWorkers: 8, CPULimit: 120,
 				Run: func(c *core.Ctx, idx int) { cdcnmon.RunC11Race(c) }},
